@@ -16,6 +16,9 @@
                                      bounds (theta-R-Z only: <<theta bounds, r bounds>>, hundredths of rad / cm; cell <<i, j>> =
                                      <<theta interval, r interval>>)]
      doc.core    name of the grid of the core system
+     doc.comps   top-level `components:` section (component designs, numeric dimensions), doc.groups `component groups:`
+                 [name, members: sequence of <<component name, mult>>]; a block component of shape "Group" and the group's
+                 name stands for the members, each with the GROUP's multiplicity (ComponentBlueprint.construct)
      doc.nuc     nuclide flags: names flagged {burn: false, xs: true}; <<>> = section not written (armi's defaults)
    `fam` names the family of documents explored (it fixes the base document and which edits are enabled), `act` is the
    last edit.  Every reachable state is one document; the actions are EDITS of the text, one per kind of choice the
@@ -94,6 +97,7 @@ FlagsOf(words) == {FlagTable[w] : w \in {x \in Rng(words) : x \in DOMAIN FlagTab
 DimsOfShape == [Circle |-> {"od", "id", "mult"}, Hexagon |-> {"op", "ip", "mult"},
                 Rectangle |-> {"lengthOuter", "lengthInner", "widthOuter", "widthInner", "mult"},
                 Square |-> {"widthOuter", "widthInner", "mult"}, DerivedShape |-> {},
+                Sphere |-> {"od", "id", "mult"}, Group |-> {},
                 Helix |-> {"od", "id", "axialPitch", "helixDiameter", "mult"},
                 RadialSegment |-> {"inner_radius", "outer_radius", "inner_theta", "outer_theta", "height", "mult"}]
 Comp(name, shape, mat, ti, th, dims) == [name |-> name, shape |-> shape, mat |-> mat, ti |-> ti, th |-> th,
@@ -219,6 +223,9 @@ ModVal(a, k, cn, key) ==
        ELSE IF byb # {} THEN a.mods[CHOOSE m \in byb : TRUE].vals[k]
        ELSE <<>>
 
+TopIdx(d, cn) == {j \in 1..Len(d.comps) : d.comps[j].name = cn}
+GroupIdx(d, gn) == {j \in 1..Len(d.groups) : d.groups[j].name = gn}
+
 (* ============================================ verdict ============================================ *)
 BlocksUsed(d) == UNION {Rng(d.asms[k].blocks) : k \in 1..Len(d.asms)}
 CoreGrid(d) == GridNamed(d, d.core)
@@ -236,6 +243,9 @@ UnknownSpecifier(d) ==
           \/ ~LinksOK(d.blocks[b])
           \/ d.blocks[b].grid # "" /\ ~HasGrid(d, d.blocks[b].grid)
           \/ \E c \in 1..Len(d.blocks[b].comps) : d.blocks[b].comps[c].iso # "" /\ ~HasIso(d, d.blocks[b].comps[c].iso)
+          \/ \E c \in 1..Len(d.blocks[b].comps) : d.blocks[b].comps[c].shape = "Group" /\
+                 (GroupIdx(d, d.blocks[b].comps[c].name) = {} \/
+                  \E j \in GroupIdx(d, d.blocks[b].comps[c].name) : \E mm \in Rng(d.groups[j].members) : TopIdx(d, mm[1]) = {})
     \/ \E x \in DOMAIN CoreCells(d) : AsmWithSpec(d, CoreCells(d)[x]) = {}
 Overlap(d) == \E b \in BlocksUsed(d) : LET B == d.blocks[b] IN
     \/ \E c \in 1..Len(B.comps) : Solid(B.comps[c].mat) /\ NegativeArea(B, B.comps[c])
@@ -250,7 +260,9 @@ MultConflict(d) == \E b \in BlocksUsed(d) : LET B == d.blocks[b] IN \E c \in 1..
         v == B.comps[c].dims["mult"]
     IN "mult" \in DOMAIN B.comps[c].dims /\ n > 0 /\ (v.k = "link" \/ (v.k = "num" /\ v.v # 1 /\ v.v # n))
 \* keys a material accepts as modifications (signature of <Material>.applyInputParams; data of the materials library)
-ModKeys(mat) == IF mat = "UZr" THEN {"U235_wt_frac", "ZR_wt_frac"} ELSE IF mat = "UraniumOxide" THEN {"U235_wt_frac"} ELSE {}
+BlendKeys == {"class1_wt_frac", "class1_custom_isotopics", "class2_custom_isotopics"}       \* FuelMaterial.applyInputParams
+ModKeys(mat) == IF mat = "UZr" THEN {"U235_wt_frac", "ZR_wt_frac"} \cup BlendKeys
+                ELSE IF mat = "UraniumOxide" THEN {"U235_wt_frac"} \cup BlendKeys ELSE {}
 \* a non-blank entry must be accepted by the named component's material, or (whole block) by some component of the block
 InvalidModification(d) == \E k \in 1..Len(d.asms) : LET a == d.asms[k] IN
     \E m \in 1..Len(a.mods) : \E j \in 1..Len(a.blocks) :
@@ -319,12 +331,25 @@ IsoMF(I) ==
     LET u == RAdd(VecOf(I, "U235"), VecOf(I, "U238")) IN
     (IF RIsZero(u) THEN [x \in {} |-> 0] ELSE [enr |-> RDiv(VecOf(I, "U235"), u)]) @@ [mf |-> [j \in 1..Len(I.vec) |-> I.vec[j]]]
 NoClaim == [none |-> TRUE]
+\* class 1 / class 2 blend (FuelMaterial.applyInputParams -> densityTools.applyIsotopicsMix): the heavy metal of the material
+\* becomes w * feed1 + (1 - w) * feed2 over ALL heavy-metal nuclides (those of the base material that are in neither feed
+\* vanish), the other fractions stay.  Stated as the mass fractions WITHIN the heavy metal.  Applied last; skipped when w is
+\* blank (w = 0 is not generated: armi treats it as blank).
+HeavyMetal == {"U235", "U238", "PU239", "PU240"}
+FeedNucs(I) == {I.vec[j][1] : j \in 1..Len(I.vec)}
+BlendVec(w, F1, F2) ==
+    LET nucs == SetToSeq((FeedNucs(F1) \cup FeedNucs(F2)) \cap HeavyMetal)
+    IN [j \in 1..Len(nucs) |-> <<nucs[j], RAdd(RMul(w, VecOf(F1, nucs[j])), RMul(RSub(<<1, 1>>, w), VecOf(F2, nucs[j])))>>]
 ExpComposition(d, a, k, c) ==
     LET e == ModVal(a, k, c.name, "U235_wt_frac")
         z == ModVal(a, k, c.name, "ZR_wt_frac")
         I == IsoNamed(d, c.iso)
     IN
-    IF c.mat = "UraniumOxide" THEN
+    IF c.mat \in {"UraniumOxide", "UZr"} /\ ModVal(a, k, c.name, "class1_wt_frac") # <<>> THEN
+        [hmf |-> BlendVec(ModVal(a, k, c.name, "class1_wt_frac"), IsoNamed(d, ModVal(a, k, c.name, "class1_custom_isotopics")[1]),
+                          IsoNamed(d, ModVal(a, k, c.name, "class2_custom_isotopics")[1]))]
+        @@ (IF c.mat = "UZr" /\ ModVal(a, k, c.name, "ZR_wt_frac") # <<>> /\ c.iso = "" THEN [zr |-> ModVal(a, k, c.name, "ZR_wt_frac")] ELSE NoClaim)
+    ELSE IF c.mat = "UraniumOxide" THEN
         \* UraniumOxide.applyInputParams -> Material.adjustMassEnrichment -> adjustMassFrac("U235", e): the requested weight
         \* fraction of U235 WITHIN the uranium, the remainder to the balance isotope(s) -- also when the override lists the
         \* balance isotope at zero; the modification is applied after the override and has the final word
@@ -344,7 +369,15 @@ ExpComposition(d, a, k, c) ==
         ELSE NoClaim
     ELSE NoClaim
 
+ExpMember(d, mem) ==
+    LET m == d.comps[CHOOSE j \in TopIdx(d, mem[1]) : TRUE] IN
+    [name |-> m.name, shape |-> m.shape, mat |-> m.mat, ti |-> m.ti, th |-> m.th, mult |-> mem[2],         \* the group's multiplicity
+     dims |-> [x \in DOMAIN m.dims \ {"mult"} |-> m.dims[x].v]]
+ExpGroup(d, c) ==
+    LET G == d.groups[CHOOSE j \in GroupIdx(d, c.name) : TRUE] IN
+    [name |-> c.name, shape |-> "Group", members |-> [j \in 1..Len(G.members) |-> ExpMember(d, G.members[j])]]
 ExpComp(d, a, k, B, c) ==
+  IF c.shape = "Group" THEN ExpGroup(d, c) ELSE
     LET geo == DOMAIN c.dims \ {"mult"}
         lk  == {x \in DOMAIN c.dims : c.dims[x].k = "link"}
     \* pin cells are claimed only where the block names a pin lattice (armi may infer a lattice of its own otherwise)
@@ -393,19 +426,22 @@ MixNF == [name |-> "atoms", fmt |-> "nf", dens |-> <<8, 1>>, vec |-> << <<"U235"
 \* oxide vectors for a library fuel material; "hot" lists the balance isotope at exactly zero
 Hot   == [name |-> "hot", fmt |-> "mf", dens |-> NoRat, vec |-> << <<"U235", <<22, 25>> >>, <<"U238", <<0, 1>> >>, <<"O16", <<3, 25>> >> >>]
 Mixed == [name |-> "mixed", fmt |-> "mf", dens |-> NoRat, vec |-> << <<"U235", <<11, 25>> >>, <<"U238", <<11, 25>> >>, <<"O16", <<3, 25>> >> >>]
+PuFeed == [name |-> "pufeed", fmt |-> "mf", dens |-> NoRat, vec |-> << <<"PU239", <<47, 50>> >>, <<"PU240", <<3, 50>> >> >>]
+DepU   == [name |-> "depu", fmt |-> "mf", dens |-> NoRat, vec |-> << <<"U238", <<1, 1>> >> >>]               \* does not cover the U235 of UZr / UO2
+Leu    == [name |-> "leu", fmt |-> "mf", dens |-> NoRat, vec |-> << <<"U235", <<1, 5>> >>, <<"U238", <<4, 5>> >> >>]
 Steel == [name |-> "steel", fmt |-> "mf", dens |-> NoRat, vec |-> << <<"FE56", <<9, 10>> >>, <<"CR52", <<1, 10>> >> >>]
 
 \* "links": one block fuel/clad/liner/coolant/duct, every dimension numeric; edits make links, change numbers, reorder, drop
-BaseLinks == [nuc |-> <<>>, iso |-> <<>>, blocks |-> << Blk(<<"fuel">>, <<Fuel, Clad, Liner, Cool, Duct>>) >>,
+BaseLinks == [comps |-> <<>>, groups |-> <<>>, nuc |-> <<>>, iso |-> <<>>, blocks |-> << Blk(<<"fuel">>, <<Fuel, Clad, Liner, Cool, Duct>>) >>,
               asms |-> << Asm(<<"fuel", "a">>, "A", <<1>>, <<10>>, <<1>>, <<"A">>) >>,
               grids |-> <<OneCell>>, core |-> "core"]
 \* "comp": compositions -- custom isotopics in the three input formats, isotopics on a library material, UZr modifications
-NucFlags == <<"U235", "U238", "PU239", "B10", "O", "ZR", "NA", "FE", "CR", "NI", "MO", "MN", "W", "V", "C", "SI">>
-BaseComp == [nuc |-> NucFlags, iso |-> <<MixMF, MixND, MixNF, Steel, Hot, Mixed>>, blocks |-> << Blk(<<"fuel">>, <<Fuel, Clad, Cool, Duct>>), Blk(<<"inner", "fuel">>, <<Fuel, Cool, Duct>>) >>,
+NucFlags == <<"U235", "U238", "PU239", "PU240", "B10", "O", "ZR", "NA", "FE", "CR", "NI", "MO", "MN", "W", "V", "C", "SI">>
+BaseComp == [comps |-> <<>>, groups |-> <<>>, nuc |-> NucFlags, iso |-> <<MixMF, MixND, MixNF, Steel, Hot, Mixed, PuFeed, DepU, Leu>>, blocks |-> << Blk(<<"fuel">>, <<Fuel, Clad, Cool, Duct>>), Blk(<<"inner", "fuel">>, <<Fuel, Cool, Duct>>) >>,
              asms |-> << Asm(<<"fuel", "a">>, "A", <<1, 2, 1>>, <<10, 20, 30>>, <<1, 2, 3>>, <<"A", "B", "C">>) >>,
              grids |-> <<OneCell>>, core |-> "core"]
 \* "stack": assembly layouts -- three block designs, an assembly design of three blocks and one of two
-BaseStack == [nuc |-> <<>>, iso |-> <<>>,
+BaseStack == [comps |-> <<>>, groups |-> <<>>, nuc |-> <<>>, iso |-> <<>>,
               blocks |-> << Blk(<<"fuel">>, <<Fuel, Clad, Cool, Duct>>), Blk(<<"shield">>, <<Slug, Cool, Duct>>), Blk(<<"plenum">>, <<Clad, Cool, Duct>>) >>,
               asms |-> << Asm(<<"fuel", "a">>, "A", <<2, 1, 3>>, <<10, 20, 30>>, <<1, 2, 3>>, <<"A", "b", "C">>),      \* xs labels are case sensitive
                           Asm(<<"shield", "b">>, "B", <<2, 3>>, <<30, 30>>, <<3, 1>>, <<"D", "E">>) >>,
@@ -415,7 +451,7 @@ PFuel  == [Fuel EXCEPT !.lat = <<"1">>, !.dims["mult"] = NoDim]
 PClad  == [Clad EXCEPT !.lat = <<"1">>, !.dims["mult"] = NoDim, !.dims["id"] = Lnk("fuel", "od")]
 PGuide == [Comp("guide", "Circle", "HT9", 25, 450, [od |-> Num(70), id |-> Num(50), mult |-> NoDim]) EXCEPT !.lat = <<"2">>]
 PinGrid(geom) == CellsGrid("pins", geom, "full", << <<0, 0, "1">> >>)
-BasePins == [nuc |-> <<>>, iso |-> <<>>, blocks |-> << [Blk(<<"fuel">>, <<PFuel, PClad, PGuide, Cool, Duct>>) EXCEPT !.grid = "pins"] >>,
+BasePins == [comps |-> <<>>, groups |-> <<>>, nuc |-> <<>>, iso |-> <<>>, blocks |-> << [Blk(<<"fuel">>, <<PFuel, PClad, PGuide, Cool, Duct>>) EXCEPT !.grid = "pins"] >>,
              asms |-> << Asm(<<"fuel", "a">>, "A", <<1>>, <<10>>, <<1>>, <<"A">>) >>,
              grids |-> <<OneCell, PinGrid("hex_corners_up")>>, core |-> "core"]
 \* "core": placement of two assembly designs on core grids of every geometry
@@ -433,7 +469,7 @@ CoreStart(geom, dom) ==
     ELSE << <<0, 0, "A">>, <<1, 0, "B">>, <<0, -1, "A">> >>
 BaseCore(geom, dom) ==
     LET outer == IF geom = "cartesian" THEN Can ELSE Duct IN
-    [nuc |-> <<>>, iso |-> <<>>, blocks |-> IF geom = "thetarz" THEN << Blk(<<"fuel">>, <<Wedge("fuel", "UZr", 0, 500)>>), Blk(<<"shield">>, <<Wedge("slug", "HT9", 500, 1000)>>) >>
+    [comps |-> <<>>, groups |-> <<>>, nuc |-> <<>>, iso |-> <<>>, blocks |-> IF geom = "thetarz" THEN << Blk(<<"fuel">>, <<Wedge("fuel", "UZr", 0, 500)>>), Blk(<<"shield">>, <<Wedge("slug", "HT9", 500, 1000)>>) >>
                               ELSE << Blk(<<"fuel">>, <<Fuel, Cool, outer>>), Blk(<<"shield">>, <<Slug, Cool, outer>>) >>,
      asms |-> CoreAsms(outer),
      grids |-> << CellsGrid("core", geom, dom, CoreStart(geom, dom)) >>, core |-> "core"]
@@ -523,6 +559,13 @@ SetMod(scope, key, vals) ==
     /\ ~\E m \in 1..Len(doc.asms[1].mods) : doc.asms[1].mods[m].scope = scope /\ doc.asms[1].mods[m].key = key
     /\ doc' = [doc EXCEPT !.asms[1].mods = Append(@, [scope |-> scope, key |-> key, vals |-> vals])]
     /\ act' = [n |-> "SetMod", scope |-> scope, key |-> key, vals |-> vals]
+SetBlend(w, f1, f2) ==                                       \* a class 1 / class 2 blend on blocks 1 and 3 (block-level lists)
+    /\ fam = "comp" /\ w \in {<<1, 5>>, <<1, 1>>} /\ f1 \in {"pufeed", "leu"} /\ f2 \in {"depu", "leu"} /\ f1 # f2
+    /\ ~\E m \in 1..Len(doc.asms[1].mods) : doc.asms[1].mods[m].key \in BlendKeys
+    /\ doc' = [doc EXCEPT !.asms[1].mods = @ \o << [scope |-> "", key |-> "class1_wt_frac", vals |-> <<w, <<>>, w>>],
+                                                   [scope |-> "", key |-> "class1_custom_isotopics", vals |-> << <<f1>>, <<>>, <<f1>> >>],
+                                                   [scope |-> "", key |-> "class2_custom_isotopics", vals |-> << <<f2>>, <<>>, <<f2>> >>] >>]
+    /\ act' = [n |-> "SetBlend", w |-> w, f1 |-> f1, f2 |-> f2]
 SetModPair(v1, v2) ==                                       \* two modifications of ONE component in one edit
     /\ fam = "comp" /\ v1 \in ModLists /\ v2 \in ModLists /\ v1 # v2
     /\ ~\E m \in 1..Len(doc.asms[1].mods) : doc.asms[1].mods[m].scope = "fuel"
@@ -630,6 +673,20 @@ PinGridName(gn) ==
     /\ doc' = [doc EXCEPT !.blocks[1].grid = gn]
     /\ act' = [n |-> "PinGridName", g |-> gn]
 
+\* ---- component groups ("group") ----
+MemberMult(j, m) ==                                          \* the member's own mult in `components:` (overridden by the group)
+    /\ fam = "group" /\ j \in 1..Len(doc.comps) /\ m \in {1, 12, 25} /\ doc.comps[j].dims["mult"] # Num(m)
+    /\ doc' = [doc EXCEPT !.comps[j].dims["mult"] = Num(m)]
+    /\ act' = [n |-> "MemberMult", j |-> j, m |-> m]
+GroupMult(j, m) ==
+    /\ fam = "group" /\ j \in 1..Len(doc.groups[1].members) /\ m \in {1, 7, 30} /\ doc.groups[1].members[j][2] # m
+    /\ doc' = [doc EXCEPT !.groups[1].members[j][2] = m]
+    /\ act' = [n |-> "GroupMult", j |-> j, m |-> m]
+GroupName(gn) ==                                             \* a block that uses a group nobody defines
+    /\ fam = "group" /\ gn \in {"pebbles"} /\ doc.blocks[1].comps[1].name # gn
+    /\ doc' = [doc EXCEPT !.blocks[1].comps[1].name = gn]
+    /\ act' = [n |-> "GroupName", g |-> gn]
+
 \* ---- pin bundle and ducts ("duct") ----
 DuctEdit(cn, d, v) ==
     /\ fam = "duct" /\ HasComp(doc.blocks[1], cn)
@@ -685,10 +742,19 @@ WClad == Comp("clad", "Circle", "HT9", 25, 25, [od |-> Num(100), id |-> Num(90),
 Wire  == Comp("wire", "Helix", "HT9", 25, 25, [od |-> Num(10), id |-> Num(0), axialPitch |-> Num(3000), helixDiameter |-> Num(110), mult |-> Num(19)])
 InnerDuct == Comp("inner duct", "Hexagon", "HT9", 25, 25, [op |-> Num(530), ip |-> Num(510), mult |-> Num(1)])
 OuterDuct == Comp("outer duct", "Hexagon", "HT9", 25, 25, [op |-> Num(580), ip |-> Num(560), mult |-> Num(1)])
-BaseDuct == [nuc |-> <<>>, iso |-> <<>>, blocks |-> << Blk(<<"fuel">>, <<WFuel, WClad, Wire, Cool, InnerDuct, OuterDuct>>) >>,
+BaseDuct == [comps |-> <<>>, groups |-> <<>>, nuc |-> <<>>, iso |-> <<>>, blocks |-> << Blk(<<"fuel">>, <<WFuel, WClad, Wire, Cool, InnerDuct, OuterDuct>>) >>,
              asms |-> << Asm(<<"fuel", "a">>, "A", <<1>>, <<10>>, <<1>>, <<"A">>) >>,
              grids |-> <<OneCell>>, core |-> "core"]
+\* "group": a particle group (kernel + shell spheres from the top-level components section) in a graphite block
+GroupComp == [name |-> "particles", shape |-> "Group", mat |-> "", ti |-> 0, th |-> 0, iso |-> "", lat |-> <<>>, dims |-> [x \in {} |-> NoDim]]
+Matrix == [Cool EXCEPT !.name = "matrix", !.mat = "Graphite", !.ti = 25, !.th = 600]
+Kernel == Comp("kernel", "Sphere", "UZr", 25, 600, [od |-> Num(40), id |-> Num(0), mult |-> Num(12)])
+Shell  == Comp("shell", "Sphere", "HT9", 25, 600, [od |-> Num(50), id |-> Num(40), mult |-> Num(1)])
+BaseGroup == [comps |-> <<Kernel, Shell>>, groups |-> << [name |-> "particles", members |-> << <<"kernel", 30>>, <<"shell", 40>> >>] >>,
+              nuc |-> <<>>, iso |-> <<>>, blocks |-> << Blk(<<"fuel">>, <<GroupComp, Matrix, Duct>>) >>,
+              asms |-> << Asm(<<"fuel", "a">>, "A", <<1>>, <<10>>, <<1>>, <<"A">>) >>, grids |-> <<OneCell>>, core |-> "core"]
 Bases(f) == IF f = "links" THEN {BaseLinks}
+            ELSE IF f = "group" THEN {BaseGroup}
             ELSE IF f = "duct" THEN {BaseDuct}
             ELSE IF f = "comp" THEN {BaseComp}
             ELSE IF f = "stack" THEN {BaseStack}
@@ -749,6 +815,7 @@ Edit ==
     \/ \E b \in 1..2, cn \in {"fuel", "clad"}, iso \in IsoNames, mat \in FuelMats \cup {"HT9"} : SetIsotopics(b, cn, iso, mat)
     \/ \E scope \in {"", "fuel"}, key \in {"U235_wt_frac", "ZR_wt_frac"}, vals \in ModLists : SetMod(scope, key, vals)
     \/ \E v1 \in ModLists, v2 \in ModLists : SetModPair(v1, v2)
+    \/ \E w \in {<<1, 5>>, <<1, 1>>}, f1 \in {"pufeed", "leu"}, f2 \in {"depu", "leu"} : SetBlend(w, f1, f2)
     \/ \E m \in 1..4 : ShortMod(m) \/ LongMod(m)
     \/ DupIsotopics
     \/ \E a \in 1..2, k \in 1..2 : SwapBlocks(a, k)
@@ -767,6 +834,9 @@ Edit ==
     \/ \E cn \in {"guide", "clad"}, ids \in {<<"1", "2">>, <<>>} : PinIds(cn, ids)
     \/ \E gn \in {"pin", "core"} : PinGridName(gn)
     \/ \E cn \in {"inner duct", "outer duct", "wire"}, d \in {"ip", "od"}, v \in {5, 20, 480, 495, 505, 535} : DuctEdit(cn, d, v)
+    \/ \E j \in 1..2, m \in {1, 12, 25} : MemberMult(j, m)
+    \/ \E j \in 1..2, m \in {1, 7, 30} : GroupMult(j, m)
+    \/ \E gn \in {"pebbles"} : GroupName(gn)
     \/ \E m \in {7, 37} : PinCount(m)
     \/ SwapDucts
     \/ \E cn \in {"inner duct", "outer duct"} : DropDuct(cn)
